@@ -16,22 +16,23 @@ import (
 const parseImports = "From Coq Require Import ZArith NArith String List.\nFrom Sidetree Require Import Base.Hex Json.Json Sidetree.Protocol Harness.Runner Harness.PatchCases Harness.ParseCases.\nImport ListNotations.\nOpen Scope string_scope.\n"
 
 type reqSpec struct {
-	typ                                                string
-	kind                                               string
+	typ                                                 string
+	kind                                                string
 	code, revealCode, deltaHashCode, updCCode, recCCode uint64
-	updCSameAsRecC, updCIsCurrentKey, recCIsCurrentKey bool
-	hdr                                                M
-	nonceLen                                           int // 0 = none
-	patches                                            A
-	omitDelta, emptyPatches                            bool
-	from, until                                        int64
-	origin                                             interface{}
-	typeMember                                         *string
-	signedSuffix                                       *string
-	revealOfOtherKey                                   bool
-	didSuffix                                          string
-	extra                                              M
-	sdType                                             string
+	updCSameAsRecC, updCIsCurrentKey, recCIsCurrentKey  bool
+	hdr                                                 M
+	nonceLen                                            int // 0 = none
+	patches                                             A
+	omitDelta, emptyPatches                             bool
+	from, until                                         int64
+	origin                                              interface{}
+	typeMember                                          *string
+	signedSuffix                                        *string
+	revealOfOtherKey                                    bool
+	didSuffix                                           string
+	extra                                               M
+	sdType                                              string
+	keyJWK                                              M // when set: the signing key image placed in the payload (and revealed)
 }
 
 type builtReq struct {
@@ -46,7 +47,7 @@ type builtReq struct {
 
 func defaultSpec(typ string, r *rand.Rand) reqSpec {
 	return reqSpec{typ: typ, kind: keyKinds[r.Intn(len(keyKinds))], code: 18, revealCode: 18, deltaHashCode: 18, updCCode: 18, recCCode: 18,
-		patches: A{M{"action": "add-services", "services": A{docService("svc"+randID(r, 3), "T", "https://example.com/s")}}},
+		patches:   A{M{"action": "add-services", "services": A{docService("svc"+randID(r, 3), "T", "https://example.com/s")}}},
 		didSuffix: "EiA" + randID(r, 40)}
 }
 
@@ -93,7 +94,11 @@ func buildReq(sp reqSpec, r *rand.Rand, algs []uint) builtReq {
 	if hdr == nil {
 		hdr = M{"alg": cur.alg}
 	}
-	reveal := revealOf(cur.jwk(), sp.revealCode)
+	curJWK := cur.jwk()
+	if sp.keyJWK != nil {
+		curJWK = map[string]interface{}(sp.keyJWK)
+	}
+	reveal := revealOf(curJWK, sp.revealCode)
 	if sp.revealOfOtherKey {
 		reveal = revealOf(genKey(r, sp.kind).jwk(), sp.revealCode)
 	}
@@ -120,7 +125,7 @@ func buildReq(sp reqSpec, r *rand.Rand, algs []uint) builtReq {
 		out.origin = sp.origin
 		delete(out.hashes, "revealValue")
 	case "update":
-		payload := M{"updateKey": cur.jwk(), "deltaHash": deltaHash}
+		payload := M{"updateKey": curJWK, "deltaHash": deltaHash}
 		addWin(payload)
 		req["didSuffix"], req["revealValue"] = sp.didSuffix, reveal
 		req["signedData"] = compactJWS(r, hdr, jcs(payload), cur)
@@ -129,7 +134,7 @@ func buildReq(sp reqSpec, r *rand.Rand, algs []uint) builtReq {
 		}
 		out.suffix = sp.didSuffix
 	case "recover":
-		payload := M{"recoveryKey": cur.jwk(), "deltaHash": deltaHash, "recoveryCommitment": recC}
+		payload := M{"recoveryKey": curJWK, "deltaHash": deltaHash, "recoveryCommitment": recC}
 		out.hashes["recoveryCommitment"] = recC
 		if sp.origin != nil {
 			payload["anchorOrigin"] = sp.origin
@@ -147,7 +152,7 @@ func buildReq(sp reqSpec, r *rand.Rand, algs []uint) builtReq {
 		if sp.signedSuffix != nil {
 			ss = *sp.signedSuffix
 		}
-		payload := M{"didSuffix": ss, "recoveryKey": cur.jwk()}
+		payload := M{"didSuffix": ss, "recoveryKey": curJWK}
 		addWin(payload)
 		req["didSuffix"], req["revealValue"] = sp.didSuffix, reveal
 		req["signedData"] = compactJWS(r, hdr, jcs(payload), cur)
@@ -164,13 +169,13 @@ func buildReq(sp reqSpec, r *rand.Rand, algs []uint) builtReq {
 }
 
 type parseCase struct {
-	label  string
-	cfg    protocol.Protocol
-	bytes  []byte
-	expect bool
-	suffix string
-	origin interface{}
-	typ    string
+	label                    string
+	cfg                      protocol.Protocol
+	bytes                    []byte
+	expect                   bool
+	suffix                   string
+	origin                   interface{}
+	typ                      string
 	rejectTime, rejectOrigin bool
 }
 
@@ -249,6 +254,11 @@ func genParseCases(r *rand.Rand) []parseCase {
 		}
 		sp0 := defaultSpec(typ, r)
 		b0 := buildReq(sp0, r, base.MultihashAlgorithms)
+		for pi, pad := range [][2]string{{"", "\n"}, {" ", ""}, {"\r\n\t ", " \r\n"}, {"", "   "}} {
+			bp := b0
+			bp.bytes = []byte(pad[0] + string(b0.bytes) + pad[1])
+			add(fmt.Sprintf("valid-whitespace-padded-%d", pi), cloneCfg(base), bp, typ, true)
+		}
 		// size gate, exact at the boundary
 		c := cloneCfg(base)
 		c.MaxOperationSize = uint(len(b0.bytes))
@@ -373,6 +383,14 @@ func genParseCases(r *rand.Rand) []parseCase {
 			c = cloneCfg(base)
 			c.KeyAlgorithms = []string{sp.kind}
 			add("curve-only-this-allowed", c, buildReq(sp, r, base.MultihashAlgorithms), typ, true)
+			// keys that name no curve at all: an RSA-shaped JWK passes JWK validation, the curve list must still refuse it
+			nb := make([]byte, 128)
+			rngReader{r}.Read(nb)
+			spk := sp
+			spk.keyJWK = M{"kty": "RSA", "crv": "", "x": "", "y": "", "n": b64(nb), "e": "AQAB"}
+			add("key-without-curve-rsa", cloneCfg(base), buildReq(spk, r, base.MultihashAlgorithms), typ, false)
+			spk.keyJWK = M{"kty": "EC", "crv": "", "x": b64(nb[:32]), "y": b64(nb[32:64])}
+			add("key-without-curve-ec", cloneCfg(base), buildReq(spk, r, base.MultihashAlgorithms), typ, false)
 			for _, n := range []int{15, 17, 1} {
 				sp := defaultSpec(typ, r)
 				sp.nonceLen = n
@@ -547,9 +565,9 @@ func toJV(v interface{}) *jv {
 		return o
 	case map[string]interface{}:
 		o := &jv{kind: "obj"}
-		for k, e := range x {
+		for _, k := range sortedKeysOf(x) {
 			o.keys = append(o.keys, k)
-			o.vals = append(o.vals, toJV(e))
+			o.vals = append(o.vals, toJV(x[k]))
 		}
 		return o
 	}
@@ -588,13 +606,17 @@ func genC03(seed int64, tier string) []caseOut {
 		sp := defaultSpec("create", r)
 		code := uint64(algs[r.Intn(len(algs))])
 		sp.deltaHashCode, sp.updCCode, sp.recCCode = code, code, code
-		switch r.Intn(4) {
+		switch r.Intn(6) {
 		case 0:
 			sp.origin = "origin.example"
 		case 1:
 			sp.origin = M{"sys": "ledger", "n": 7.0}
 		case 2:
 			sp.origin = 12345.0
+		case 3: // spellings a "normalising" parser would fold together: the suffix must still cover the submitted bytes
+			sp.origin = []string{"https://origin.example/", "origin.example/", "https://Origin.Example", " origin.example ", "https://origin.example//", "https://origin.example/a/../"}[r.Intn(6)]
+		case 4:
+			sp.origin = A{"https://a.example/", M{"b": "x/"}}
 		}
 		if r.Intn(2) == 0 {
 			sp.sdType = "kind1"
@@ -635,7 +657,16 @@ func genC03(seed int64, tier string) []caseOut {
 			case "deltaHash":
 				sd["deltaHash"] = modelHash(M{"x": 1.0}, code)
 			case "anchorOrigin":
-				sd["anchorOrigin"] = "other-origin.example"
+				if so, ok := sd["anchorOrigin"].(string); ok && r.Intn(2) == 0 {
+					// a near-miss: same origin with / without a trailing slash
+					if strings.HasSuffix(so, "/") {
+						sd["anchorOrigin"] = strings.TrimRight(so, "/")
+					} else {
+						sd["anchorOrigin"] = so + "/"
+					}
+				} else {
+					sd["anchorOrigin"] = "other-origin.example"
+				}
 			case "sdType":
 				sd["type"] = "kind2"
 			case "delta.updateCommitment":
